@@ -41,7 +41,7 @@ Prods == [
   Items    |-> << <<"<item", "Item", ">item">>, <<"<item", "Item", ">item", "comma", "Items">>,
                   <<"<item", "Item", ">item", "comma", "Items">> >>,
   Item     |-> << <<"<id", "Ref", "AliasOpt", ">id">>, <<"Expr", "AliasOpt">>, <<"star">>,
-                  <<"name", "dot", "star">>, <<"<id", "Ref", "AliasOpt", ">id">> >>,
+                  <<"name", "dot", "star">>, <<"<id", "Ref", "AliasOpt", ">id">>, <<"Func", "AliasOpt">> >>,
   Ref      |-> << <<"<n", "Name", ">n">>, <<"<q", "Name", ">q", "dot", "<n", "Name", ">n">> >>,
   Name     |-> << <<"name">>, <<"dqname">>, <<"btname">>, <<"name">> >>,
   AliasOpt |-> << <<>>, <<"as", "<a", "alias", ">a">>, <<"<a", "alias", ">a">> >>,
